@@ -114,9 +114,136 @@ def alias_encs():
     return out
 
 
+
+# ---------------------------------------------------------------------------------------------
+# FAILURE PATHS: an operation that is refused or that dies half-way (a content item whose __str__ raises, a lines
+# assignment with a non-str entry) must leave the receiving block as it was, and the next valid operation - on the same
+# block, on another block, and on the SAME list / dict object after the offending item was replaced - behaves as ever.
+# ---------------------------------------------------------------------------------------------
+
+class _Boom(Exception):
+    pass
+
+
+class _BaseBoom(BaseException):     # not caught by `except Exception` clean-up code
+    pass
+
+
+class _Poison:
+    def __init__(self, exc):
+        self.exc = exc
+
+    def __str__(self):
+        raise self.exc('poisoned item')
+
+
+REFUSED_SHAPES = {
+    'alone': lambda p: p, 'in-list': lambda p: [p], 'last': lambda p: ['x', p], 'first': lambda p: [p, 'y'],
+    'middle': lambda p: ['x', p, 'y'], 'dict-value': lambda p: {'a': 'x', 'b': p, 'c': 'y'}, 'nested': lambda p: ['x', ['y', [p]], 'z'],
+    'after-break': lambda p: ['u\nv', p],
+}
+REFUSED_OPS = ('append', 'iadd', 'add', 'radd-ctor', 'lines-setter', 'chunk', 'cond_chunk')
+REFUSED_ORIGS = [[], ['a'], ['a', '', 'b']]
+
+
+def _replace_poison(obj, by):
+    """Repair the SAME container objects in place."""
+    if isinstance(obj, list):
+        for i, x in enumerate(obj):
+            if isinstance(x, _Poison):
+                obj[i] = by
+            else:
+                _replace_poison(x, by)
+    elif isinstance(obj, dict):
+        for k, x in list(obj.items()):
+            if isinstance(x, _Poison):
+                obj[k] = by
+            else:
+                _replace_poison(x, by)
+
+
+def judge_refused(case):
+    from dznpy.text_gen import TextBlock, chunk, cond_chunk  # pylint: disable=import-outside-toplevel
+    import copy  # pylint: disable=import-outside-toplevel
+    out = []
+    exc = {'Exception': _Boom, 'BaseException': _BaseBoom}[case['exc']]
+    hdr = case.get('header')
+    orig = list(case['orig'])
+    op = case['op']
+
+    def bad(key, what):
+        out.append((f'refused-operation:{key}', f'{case}: {what}'))
+    try:
+        blk = TextBlock(list(orig), header=hdr) if hdr else TextBlock(list(orig))
+        before_lines, before_str = list(blk.lines), str(blk)
+        content = REFUSED_SHAPES[case['shape']](_Poison(exc))
+        raised = False
+        try:
+            if op == 'append':
+                blk.append(content)
+            elif op == 'iadd':
+                blk += content
+            elif op == 'add':
+                _ = blk + content
+            elif op == 'radd-ctor':
+                _ = TextBlock(content)
+            elif op == 'lines-setter':
+                # a list of lines holding an entry that is not a string
+                blk.lines = ['p', 'q', 7] if case['shape'] == 'last' else ([7, 'p'] if case['shape'] == 'first' else ['p', None, 'q'])
+            elif op == 'chunk':
+                _ = chunk(content, blk) if case['shape'] != 'alone' else chunk([content], blk)
+            else:
+                _ = cond_chunk(blk, content, 'nothing')
+        except (Exception, _BaseBoom):  # pylint: disable=broad-except
+            raised = True
+        if not raised:
+            return out          # the operation was accepted after all: nothing is demanded here
+        if list(blk.lines) != before_lines or str(blk) != before_str:
+            bad('receiver-changed', f'lines before {before_lines!r}, after the refused operation {blk.lines!r}')
+            return out
+        # the next valid operations on the same block
+        blk.append('z')
+        if list(blk.lines) != before_lines + ['z']:
+            bad('next-append', f'{blk.lines!r}')
+        blk += ['', 'w']
+        if list(blk.lines) != before_lines + ['z', '', 'w']:
+            bad('next-iadd', f'{blk.lines!r}')
+        want = (hdr + '\n' if hdr else '') + ''.join(x + '\n' for x in before_lines + ['z', '', 'w'])
+        if str(blk) != want:
+            bad('next-str', f'{str(blk)!r}')
+        # the same container objects, repaired in place, flatten like an equal fresh value
+        if op != 'lines-setter' and isinstance(content, (list, dict)):
+            _replace_poison(content, 'ok')
+            twin = copy.deepcopy(content)
+            got, ref = TextBlock(['s']), TextBlock(['s'])
+            got.append(content)
+            ref.append(twin)
+            if list(got.lines) != list(ref.lines) or len(got.lines) < 2:
+                bad('repaired-container-reused', f'appending the repaired object gives {got.lines!r}, an equal fresh one {ref.lines!r}')
+            fresh_blk = TextBlock(content)
+            if list(fresh_blk.lines) != list(ref.lines)[1:]:
+                bad('repaired-container-in-new-block', f'{fresh_blk.lines!r} vs {list(ref.lines)[1:]!r}')
+    except (Exception, _BaseBoom) as err:  # pylint: disable=broad-except
+        bad(f'exception:{type(err).__name__}', repr(err))
+    return out
+
+
+def refused_cases():
+    for orig in REFUSED_ORIGS:
+        for shape in REFUSED_SHAPES:
+            for op in REFUSED_OPS:
+                for exc in ('Exception', 'BaseException'):
+                    for hdr in (None, 'Hdr'):
+                        if op == 'lines-setter' and (shape not in ('last', 'first', 'middle') or exc != 'Exception'):
+                            continue
+                        yield {'kind': 'refused', 'orig': orig, 'shape': shape, 'op': op, 'exc': exc, 'header': hdr}
+
+
 def judge(case):
     if case.get('kind') == 'self':
         return judge_self(case)
+    if case.get('kind') == 'refused':
+        return judge_refused(case)
     R.FORM[0] = case.get('form')
     try:
         return _judge(case)
@@ -361,6 +488,15 @@ def work_strings(slot):
                         part.outcome('content-holds-receiver')
                         for key, what in judge_self(case):
                             part.violation(key, what, case)
+    if idx == 3 % nslots:
+        for case in refused_cases():
+            part.evaluations += 1
+            part.states += 1
+            part.transitions += 3
+            part.nontrivial += 1
+            part.outcome('refused-operation')
+            for key, what in judge_refused(case):
+                part.violation(key, what, case)
     return part
 
 
